@@ -222,6 +222,88 @@ Qed.
 Lemma cancel_persisted s t s' : cancel s t = Some s' -> persisted s' = persisted s.
 Proof. intros H. destruct (cancel_frame _ _ _ H) as (th & _ & ->). reflexivity. Qed.
 
+(* ---- [AResumeReadFail]: the flags of the [finish] each failing case performs ------------------------------------
+   (error class, key released, reference released, revert reservation released); [None]: not a failing case *)
+Definition rf_flags (th : thread) : option (eclass * bool * bool * bool) :=
+  match t_pc th with
+  | PRevTaken => Some (EStoreRead, false, false, true)
+  | PIkTaken => Some (EStoreRead, true, false, true)
+  | PRefTaken => Some (EStoreRead, true, true, true)
+  | PIkLookup None =>
+      match rq_kind (t_req th) with
+      | KCreate => Some (ECompilationFailed, true, false, true)
+      | KDelMeta => Some (ENotFound, true, false, false)
+      | _ => None
+      end
+  | PRefLookup false => Some (ECompilationFailed, true, true, true)
+  | PLocked => Some (EStoreRead, true, true, true)
+  | _ => None
+  end.
+
+(* the shape of [AResumeReadFail]: [finish] with those flags over a state that differs from [s] in the lock table /
+   queue and the [t_granted] flags only (the [unlock] of the [PLocked] case) -- or the SaveMeta that goes on *)
+Lemma resume_read_fail_shape s t s' : resume_read_fail s t = Some s' ->
+  exists th, get_thread (threads s) t = Some th /\ t_gen th = gen s /\
+   ((exists err ri rf rv u1, rf_flags th = Some (err, ri, rf, rv) /\
+       glob u1 = glob (of_state s) /\ (forall t', lookt (u_threads u1) t' = look s t') /\
+       u_iks u1 = v_iks s /\ u_refs u1 = v_refs s /\ u_revs u1 = v_revs s /\ u_published u1 = published s /\
+       (t_pc th <> PLocked -> u1 = of_state s) /\
+       s' = to_state (gen s) (finish t th (RErr err) false ri rf rv u1))
+    \/ (t_pc th = PIkLookup None /\ rq_kind (t_req th) = KSaveMeta /\
+        s' = to_state (gen s) (set_th t (with_pc th (if rq_dry (t_req th) then PWait else PAppendEnter)) (of_state s)))).
+Proof.
+  intros H. unfold resume_read_fail in H.
+  destruct (get_thread (threads s) t) as [th|] eqn:Hget; [|discriminate].
+  destruct (Nat.eqb (t_gen th) (gen s)) eqn:Hg; simpl in H; [|discriminate]. apply Nat.eqb_eq in Hg.
+  exists th. split; [reflexivity|]. split; [exact Hg|].
+  assert (Hplain : forall err ri rf rv, rf_flags th = Some (err, ri, rf, rv) ->
+            Some (to_state (gen s) (finish t th (RErr err) false ri rf rv (of_state s))) = Some s' ->
+            (exists err ri rf rv u1, rf_flags th = Some (err, ri, rf, rv) /\
+       glob u1 = glob (of_state s) /\ (forall t', lookt (u_threads u1) t' = look s t') /\
+       u_iks u1 = v_iks s /\ u_refs u1 = v_refs s /\ u_revs u1 = v_revs s /\ u_published u1 = published s /\
+       (t_pc th <> PLocked -> u1 = of_state s) /\
+       s' = to_state (gen s) (finish t th (RErr err) false ri rf rv u1))).
+  { intros err ri rf rv Hf H1. injection H1 as <-. exists err, ri, rf, rv, (of_state s). repeat split; auto. }
+  unfold rf_flags in *.
+  destruct (t_pc th) eqn:Hpc; try discriminate.
+  - left. eapply Hplain; [reflexivity|exact H].
+  - left. eapply Hplain; [reflexivity|exact H].
+  - destruct hit; [discriminate|]. destruct (rq_kind (t_req th)) eqn:Hk; try discriminate.
+    + destruct (N.eqb _ 0); [|discriminate]. left. eapply Hplain; [reflexivity|exact H].
+    + destruct (rq_target_tx _); [|discriminate]. injection H as <-. right. auto.
+    + destruct (rq_target_tx _); [|discriminate]. left. eapply Hplain; [reflexivity|exact H].
+  - left. eapply Hplain; [reflexivity|exact H].
+  - destruct hit; [discriminate|]. destruct (rq_kind (t_req th)) eqn:Hk; try discriminate.
+    left. eapply Hplain; [reflexivity|exact H].
+  - destruct (needs_balance th); [|discriminate]. injection H as <-. left.
+    destruct (unlock_rest t (of_state s)) as (A & B & C & D).
+    exists EStoreRead, true, true, true, (unlock t (of_state s)).
+    split; [reflexivity|]. split; [apply unlock_glob|]. split; [intros t'; apply unlock_look|].
+    repeat split; auto. intros Hc; congruence.
+Qed.
+
+Lemma resume_read_fail_frame s t s' : resume_read_fail s t = Some s' ->
+  persisted s' = persisted s /\ forall t', t' <> t -> look s' t' = look s t'.
+Proof.
+  intros H. destruct (resume_read_fail_shape _ _ _ H) as (th & _ & _ & [Hf|(_ & _ & ->)]).
+  - destruct Hf as (err & ri & rf & rv & u1 & _ & Hgl & Hl & _ & _ & _ & _ & _ & ->). split.
+    + cbn. inversion Hgl. auto.
+    + intros t' Hne. unfold look. cbn. rewrite lookt_set, Hl.
+      destruct (Nat.eqb t t') eqn:E; auto. apply Nat.eqb_eq in E. congruence.
+  - split; [reflexivity|]. intros t' Hne. unfold look. cbn. rewrite lookt_set.
+    destruct (Nat.eqb t t') eqn:E; auto. apply Nat.eqb_eq in E. congruence.
+Qed.
+
+(* the thread that suffers the read failure is not finished *)
+Lemma resume_read_fail_unfinished s t s' th : resume_read_fail s t = Some s' ->
+  get_thread (threads s) t = Some th -> t_pc th <> PFinished.
+Proof.
+  intros H Hget Hpc. destruct (resume_read_fail_shape _ _ _ H) as (th1 & Hg1 & _ & Hc).
+  rewrite Hget in Hg1. inversion Hg1; subst th1.
+  destruct Hc as [(err & ri & rf & rv & u1 & Hf & _)|(Hp & _)]; [|congruence].
+  unfold rf_flags in Hf. rewrite Hpc in Hf. discriminate.
+Qed.
+
 Lemma step_persisted s a s' : step s a = Some s' -> forall e, In e (persisted s') -> In e (all_log s).
 Proof.
   intros H e He. destruct a; simpl in H.
@@ -234,6 +316,7 @@ Proof.
   - injection H as <-. apply persisted_all; auto.
   - rewrite (cancel_persisted _ _ _ H) in He. apply persisted_all; auto.
   - apply resume_cancelled_frame in H. destruct H as (Hp & _). rewrite Hp in He. apply persisted_all; auto.
+  - apply resume_read_fail_frame in H. destruct H as (Hp & _). rewrite Hp in He. apply persisted_all; auto.
 Qed.
 
 Lemma step_finished s a s' t th : look s t = Some th -> t_pc th = PFinished -> step s a = Some s' ->
@@ -241,7 +324,7 @@ Lemma step_finished s a s' t th : look s t = Some th -> t_pc th = PFinished -> s
 Proof.
   intros Hl Hpc H.
   assert (Hk : option_map kill (look s t) = Some th) by (rewrite Hl; simpl; unfold kill; rewrite Hpc; auto).
-  destruct a as [t' rq|t'| | | |t'|t']; simpl in H.
+  destruct a as [t' rq|t'| | | |t'|t'|t']; simpl in H.
   - apply start_frame in H. destruct H as (Hn & _ & Ho). rewrite Ho; auto.
     intros ->. rewrite (look_none _ _ Hn) in Hl. discriminate.
   - destruct (Nat.eq_dec t t') as [<-|Hne].
@@ -257,6 +340,10 @@ Proof.
       destruct (resume_cancelled_shape _ _ _ H) as (th1 & _ & Hg1 & _ & Hpc1 & _).
       rewrite Hg in Hg1. inversion Hg1; subst th1. cbn in Hpc. congruence.
     + apply resume_cancelled_frame in H. destruct H as (_ & Ho). rewrite Ho; auto.
+  - destruct (Nat.eq_dec t t') as [<-|Hne].
+    + exfalso. destruct (look_inv _ _ _ Hl) as (th0 & Hg & ->).
+      exact (resume_read_fail_unfinished _ _ _ _ H Hg Hpc).
+    + apply resume_read_fail_frame in H. destruct H as (_ & Ho). rewrite Ho; auto.
 Qed.
 
 Definition quiet (t : tid) (th : thread) (s : state) : Prop :=
@@ -384,4 +471,106 @@ Lemma e1_cancel_self s t s' : step s (ACancel t) = Some s' ->
 Proof.
   intros H. simpl in H. destruct (cancel_frame _ _ _ H) as (th & Hget & ->).
   exists th. split; auto. cbn. rewrite get_set, Nat.eqb_refl. reflexivity.
+Qed.
+
+(* ---- transient store read failures ([AResumeReadFail]) ----------------------------------------------------------- *)
+(* a request answered an error -- whatever the class -- has finished, built no entry, owns no entry anywhere (disk,
+   batcher queue, batch being written) and is not inside the append critical section *)
+Theorem e1_error_no_trace_anywhere s t th err : reachable s -> get_thread (threads s) t = Some th ->
+  t_resp th = Some (RErr err) ->
+  t_entry th = None /\ t_pc th = PFinished /\
+  (forall e, In e (persisted s) -> e_owner e <> t) /\
+  (forall e, In e (v_pending s) -> e_owner e <> t) /\
+  (forall b e, v_batch s = Some b -> In e b -> e_owner e <> t) /\
+  v_cs s <> Some t.
+Proof.
+  intros R Hget Hr. pose proof (answered_finished s R t th _ Hget Hr) as Hpc. apply reachable_inv in R.
+  pose proof (look_get _ _ _ Hget) as Hlook.
+  pose proof (i_thr _ R _ _ Hlook) as Hti. apply tinv_erase_2 in Hti.
+  pose proof (ti_err _ _ _ _ _ Hti _ Hr) as Hent.
+  assert (Hno : forall e, In e (all_log s) -> e_owner e <> t).
+  { intros e He Ho. destruct (i_own _ R e He) as (th1 & A & B). rewrite Ho, Hlook in A.
+    inversion A; subst th1. cbn in B. congruence. }
+  split; [exact Hent|]. split; [exact Hpc|]. split; [|split; [|split]].
+  - intros e He. apply Hno. apply persisted_all; auto.
+  - intros e He. apply Hno. unfold all_log. apply in_or_app; right. apply in_or_app; right. apply in_or_app; auto.
+  - intros b e Hb He. apply Hno. unfold all_log, batch_l. rewrite Hb. apply in_or_app; right. apply in_or_app; auto.
+  - intros Hc. destruct (i_cs _ R _ Hc) as (th0 & Hl0 & _ & Hin0 & _). rewrite Hlook in Hl0. inversion Hl0; subst th0.
+    unfold in_cs in Hin0. cbn in Hin0. rewrite Hpc in Hin0. discriminate.
+Qed.
+
+Theorem e1_read_failed_no_trace s t th : reachable s -> get_thread (threads s) t = Some th ->
+  (t_resp th = Some (RErr EStoreRead) \/ t_resp th = Some (RErr ECompilationFailed)) ->
+  t_entry th = None /\ t_pc th = PFinished /\
+  (forall e, In e (persisted s) -> e_owner e <> t) /\
+  (forall e, In e (v_pending s) -> e_owner e <> t) /\
+  (forall b e, v_batch s = Some b -> In e b -> e_owner e <> t) /\
+  v_cs s <> Some t.
+Proof. intros R Hget [Hr|Hr]; eapply e1_error_no_trace_anywhere; eauto. Qed.
+
+(* the step itself, case by case: nothing is written, handed over or published; the head of the chain, the transaction
+   counter, the critical section are left alone; either the request is answered the error of [rf_flags] with no entry
+   and exactly the reservations named by the flags are released (the others are untouched), or it is the SaveMeta
+   whose read error the code ignores: only its pc moves *)
+Theorem e1_read_failed_step_fine s t s' : reachable s -> step s (AResumeReadFail t) = Some s' ->
+  persisted s' = persisted s /\ v_pending s' = v_pending s /\ v_batch s' = v_batch s /\
+  published s' = published s /\ v_last s' = v_last s /\ v_lasttx s' = v_lasttx s /\ v_cs s' = v_cs s /\
+  exists th th', get_thread (threads s) t = Some th /\ get_thread (threads s') t = Some th' /\
+   ((exists err ri rf rv, rf_flags th = Some (err, ri, rf, rv) /\
+       t_resp th' = Some (RErr err) /\ t_pc th' = PFinished /\ t_entry th' = None /\
+       (if ri then rq_ik (t_req th) <> 0%N -> ~ In (rq_ik (t_req th)) (v_iks s') else v_iks s' = v_iks s) /\
+       (if rf then rq_ref (t_req th) <> 0%N -> ~ In (rq_ref (t_req th)) (v_refs s') else v_refs s' = v_refs s) /\
+       (if rv then rq_kind (t_req th) = KRevert -> ~ In (rq_revert (t_req th)) (v_revs s') else v_revs s' = v_revs s) /\
+       (t_pc th <> PLocked -> v_locks s' = v_locks s /\ v_queue s' = v_queue s))
+    \/ (rq_kind (t_req th) = KSaveMeta /\ t_pc th = PIkLookup None /\ t_resp th' = None /\ t_entry th' = None /\
+        t_pc th' = (if rq_dry (t_req th) then PWait else PAppendEnter) /\
+        v_iks s' = v_iks s /\ v_refs s' = v_refs s /\ v_revs s' = v_revs s /\
+        v_locks s' = v_locks s /\ v_queue s' = v_queue s)).
+Proof.
+  intros R H. simpl in H. apply reachable_inv in R.
+  destruct (resume_read_fail_shape _ _ _ H) as (th & Hget & Hgen & Hc).
+  pose proof (i_thr _ R _ _ (look_get _ _ _ Hget)) as Hti. apply tinv_erase_2 in Hti.
+  assert (Hent : t_entry th = None).
+  { pose proof (ti_pc _ _ _ _ _ Hti) as Hp. unfold pc_ok in Hp.
+    destruct Hc as [(err & ri & rf & rv & u1 & Hf & _)|(Hp1 & _)].
+    - unfold rf_flags in Hf. destruct (t_pc th); try discriminate; try tauto.
+    - rewrite Hp1 in Hp. tauto. }
+  destruct Hc as [(err & ri & rf & rv & u1 & Hf & Hgl & _ & Hik & Hrf & Hrv & Hpub & Hu1 & ->)|(Hpc & Hk & ->)].
+  - inversion Hgl as [[Hp Hl Hlt Hpe Hb Hcs Hu]].
+    cbn. do 7 (split; [first [assumption|reflexivity]|]).
+    exists th. eexists. split; [exact Hget|]. split; [rewrite get_set, Nat.eqb_refl; reflexivity|].
+    left. exists err, ri, rf, rv. split; [exact Hf|]. split; [reflexivity|]. split; [reflexivity|].
+    split; [exact Hent|]. split; [|split; [|split]].
+    + destruct ri; cbn; [|exact Hik]. intros Hne. apply N.eqb_neq in Hne. rewrite Hne. cbn. apply remove_N_not_in.
+    + destruct rf; cbn; [|exact Hrf]. intros Hne. apply N.eqb_neq in Hne. rewrite Hne. cbn. apply remove_N_not_in.
+    + destruct rv; [|exact Hrv]. intros Hk. rewrite Hk. apply remove_nat_not_in.
+    + intros Hnl. rewrite (Hu1 Hnl). split; reflexivity.
+  - cbn. do 7 (split; [reflexivity|]).
+    exists th. eexists. split; [exact Hget|]. split; [rewrite get_set, Nat.eqb_refl; reflexivity|].
+    right. split; [exact Hk|]. split; [exact Hpc|]. cbn.
+    split; [apply (ti_resp _ _ _ _ _ Hti); rewrite Hpc; discriminate|]. split; [exact Hent|].
+    split; [destruct (rq_dry (t_req th)); reflexivity|]. repeat split; reflexivity.
+Qed.
+
+(* the summary: either the request failed -- answered an error, finished, no entry, and its idempotency key is free
+   afterwards unless the failure came before the key was taken ([PRevTaken]: the key table is untouched) -- or it is
+   exactly the SaveMeta case *)
+Theorem e1_read_failed_step s t s' : reachable s -> step s (AResumeReadFail t) = Some s' ->
+  persisted s' = persisted s /\ v_pending s' = v_pending s /\ v_batch s' = v_batch s /\
+  published s' = published s /\ v_last s' = v_last s /\ v_lasttx s' = v_lasttx s /\
+  exists th th', get_thread (threads s) t = Some th /\ get_thread (threads s') t = Some th' /\
+   ((exists err, t_resp th' = Some (RErr err) /\ t_pc th' = PFinished /\ t_entry th' = None /\
+       (t_pc th <> PRevTaken -> rq_ik (t_req th) <> 0%N -> ~ In (rq_ik (t_req th)) (v_iks s')) /\
+       (t_pc th = PRevTaken -> v_iks s' = v_iks s))
+    \/ (rq_kind (t_req th) = KSaveMeta /\ t_pc th = PIkLookup None /\ t_resp th' = None)).
+Proof.
+  intros R H. destruct (e1_read_failed_step_fine s t s' R H) as (A1 & A2 & A3 & A4 & A5 & A6 & _ & th & th' & Hg & Hg' & Hc).
+  do 6 (split; [assumption|]). exists th, th'. split; [exact Hg|]. split; [exact Hg'|].
+  destruct Hc as [(err & ri & rf & rv & Hf & Hr & Hpc & He & Hik & _)|(Hk & Hpc & Hr & _)]; [left|right; auto].
+  exists err. split; [exact Hr|]. split; [exact Hpc|]. split; [exact He|].
+  unfold rf_flags in Hf. split.
+  - intros Hne. destruct (t_pc th); try discriminate; try congruence;
+      repeat match type of Hf with context [match ?x with _ => _ end] => destruct x end;
+      try discriminate; inversion Hf; subst; exact Hik.
+  - intros Hp. rewrite Hp in Hf. inversion Hf; subst. exact Hik.
 Qed.
